@@ -117,7 +117,7 @@ def check_format(prog, src, width, res, desc, family):
         k = 0
         for t in prog.toks:
             idx.append(k)
-            k += 3 if t.cls == 'LABEL' else 1
+            k += 3 if t.cls.startswith('LABEL') else 1
         lines = [t.line for t in outsig]
         for (f, l) in prog.scopes:
             fi, li = idx[f], idx[l]
